@@ -26,6 +26,7 @@ import z3
 
 from pyvc import loader
 from pyvc.interp import Env, _ENGINE
+from contracts.common import replay_script  # noqa: E402
 from pyvc.pack import Case, Ground
 from pyvc.sym import SymInt, iexpr
 
@@ -525,7 +526,7 @@ def exit_code_cases():
             ctx.oblige("accounting: passed += tests whose exit code is PASS", tp == tp0.e + passed_here)
             ctx.oblige("accounting: failed = found - passed is preserved (a test without a result counts as failed)", tfail == tf - tp)
 
-        out.append(Case(f"{PROP}/__main__._main#accounting", f"{k} result(s)", harness, sources=("halmos.__main__:_main",)))
+        out.append(Case(f"{PROP}/__main__._main#accounting", f"{k} result(s)", harness, replay=replay_script("setup_failure_exit_code.py", "real _main on projects whose constructor or setUp() fails"), sources=("halmos.__main__:_main",)))
 
     def harness_tail(interp):
         ctx = interp.ctx
@@ -558,8 +559,67 @@ def exit_code_cases():
     return out
 
 
+def join_cases():
+    """run_test between exploration and verdict: the verdict is computed only after every submitted solver job and
+    its callback have finished (thread_pool.shutdown(wait=True)), whatever the status display option is"""
+    out = []
+    for no_status in (True, False):
+        for pending_polls in (0, 2):
+
+            def harness(interp, no_status=no_status, pending_polls=pending_polls):
+                import time as _time
+
+                ctx = interp.ctx
+                sf, node = loader.func_node(hm.run_test)
+                body = node.body
+                i0 = next((i for i, st in enumerate(body) if isinstance(st, ast.Assign) and ast.unparse(st.targets[0]) == "num_execs"), None)
+                i1 = next((i for i, st in enumerate(body) if isinstance(st, ast.Assign) and ast.unparse(st.targets[0]) == "counter"), None)
+                if i0 is None or i1 is None or not i0 < i1:
+                    raise loader.BindingError("run_test: `num_execs = ...` / `counter = Counter(...)` not found in this order")
+                frag = body[i0:i1]
+                events = []
+
+                class Fut:
+                    def __init__(self):
+                        self.polls = 0
+
+                    def done(self):
+                        self.polls += 1
+                        return self.polls > pending_polls
+
+                futs = [Fut(), Fut()]
+
+                class Pool:
+                    def shutdown(self, wait=False):
+                        events.append(("shutdown", wait))
+
+                class Timer:
+                    def create_subtimer(self, n):
+                        events.append(("subtimer", n))
+
+                    def elapsed(self):
+                        return 0.0
+
+                    def stop(self):
+                        events.append(("timer-stop",))
+
+                    def report(self, include_subtimers=False):
+                        return "t"
+
+                env = Env({"time": NS(sleep=lambda s_: events.append(("sleep",))), "ui": NS(update_status=lambda *a, **k: events.append(("status",))), "path_id": 4, "potential": 2, "submitted_futures": futs, "funsig": "check_x()", "args": NS(no_status=no_status, verbose=0, statistics=False, solver_threads=1), "ctx": NS(thread_pool=Pool(), solver_outputs=[]), "timer": Timer()}, None, hm.__dict__)
+                kind, payload, yields = interp.exec_fragment(frag, env, qual="halmos.__main__:run_test#join", is_gen=False)
+                ctx.oblige("the section between exploration and verdict runs to its end", z3.BoolVal(kind == "fallthrough"), info={"kind": kind, "payload": str(payload)[:100]})
+                joins = [e for e in events if e[0] == "shutdown"]
+                ctx.oblige("every submitted solver job is joined before the verdict is computed: thread_pool.shutdown(wait=True), exactly once, with or without the status display", z3.BoolVal(joins == [("shutdown", True)]), info={"events": str(events)[:200]})
+                if not no_status and pending_polls:
+                    ctx.oblige("with the status display the loop polls until every job is done", z3.BoolVal(all(f.polls > pending_polls for f in futs)))
+
+            out.append(Case(f"{PROP}/__main__.run_test#join", f"no_status={no_status}, jobs pending for {pending_polls} poll(s)", harness, replay=replay_script("no_status_join.py", "real _main with a fake forge and a slow fake solver, with and without --no-status"), sources=("halmos.__main__:run_test",)))
+    return out
+
+
 def build_cases(tier="quick"):
-    return verdict_cases() + from_result_cases() + timeout_cases() + classification_cases() + callback_cases() + exit_code_cases()
+    return verdict_cases() + from_result_cases() + timeout_cases() + classification_cases() + callback_cases() + exit_code_cases() + join_cases()
 
 
 def grounds():
